@@ -77,17 +77,19 @@ def events_for(darsia, rng, shape, h, tid, integer_h):
         ev.append(mass_entries(m1, mode))
     if nf == 0:
         return ev
-    # face -> cell reconstruction at rational reference points
-    for _ in range(3):
-        u = [rng.randint(-9, 9) for _ in range(nf)]
+    # face -> cell reconstruction at rational reference points.  ONE caller-owned flux array serves all these calls (and the
+    # reconstructions below); the evaluation point is passed in the forms callers use: ndarray, list, tuple, scalar (1-D)
+    ua = np.array([rng.randint(-9, 9) for _ in range(nf)], dtype=float)
+    u = [int(x) for x in ua]
+    for rep in range(3):
         q = rng.choice([1, 2, 4])
         t = [rng.randint(0, q) for _ in range(dim)]
-        pt = np.array([ti / q for ti in t]) if dim > 1 else t[0] / q
-        res = darsia.face_to_cell(grid, np.array(u, dtype=float), pt)
+        form = rng.choice(["array", "list", "tuple"] + (["scalar"] if dim == 1 else []))
+        pt = {"array": np.array([ti / q for ti in t]), "list": [ti / q for ti in t], "tuple": tuple(ti / q for ti in t), "scalar": t[0] / q}[form]
+        res = darsia.face_to_cell(grid, ua, pt)
         flat = [[qi(q * res[..., d].ravel("F")[c]) for d in range(dim)] for c in range(nc)]
-        ev.append(dict(base, op="f2c", u=u, t=t, q=q, res=flat))
-    u = [rng.randint(-9, 9) for _ in range(nf)]
-    res = darsia.face_to_cell(grid, np.array(u, dtype=float))  # default: cell centre
+        ev.append(dict(base, op="f2c", u=u, t=t, q=q, res=flat, ptform=form))
+    res = darsia.face_to_cell(grid, ua)  # default: cell centre
     ev.append(dict(base, op="f2c", u=u, t=[1] * dim, q=2,
                    res=[[qi(2 * res[..., d].ravel("F")[c]) for d in range(dim)] for c in range(nc)]))
     # cell -> face averages.  One caller-owned field per kind is averaged several times (harmonic, arithmetic, harmonic,
@@ -109,20 +111,29 @@ def events_for(darsia, rng, shape, h, tid, integer_h):
         for mode in ("harmonic", "arithmetic", "harmonic", "arithmetic"):
             res = darsia.cell_to_face_average(grid, arr, mode)
             ev.append(dict(base, op="c2f", kind=kind, mode=mode, v=v, res=[qi(60 * x, 1e-7) for x in res]))
-    # tangential and full reconstruction
+    # tangential and full reconstruction: one operator object each, applied to the caller's flux array and then to a second one
     if dim >= 2:
-        u = [rng.randint(-9, 9) for _ in range(nf)]
-        tr = darsia.FVTangentialFaceReconstruction(grid)(np.array(u, dtype=float), False)
-        ev.append(dict(base, op="tang", u=u, res=[[qi(4 * x) for x in comp] for comp in tr]))
-        # the concatenated form must be the same numbers
-        cat = darsia.FVTangentialFaceReconstruction(grid)(np.array(u, dtype=float), True)
-        if not np.array_equal(np.concatenate(tr), cat):
-            ev[-1]["res"] = [[BADINT] * nf] * (dim - 1)
-        full = darsia.FVFullFaceReconstruction(grid)(np.array(u, dtype=float))
-        ev.append(dict(base, op="full", u=u, res=[[qi(4 * x) for x in row] for row in full]))
+        T_op = darsia.FVTangentialFaceReconstruction(grid)
+        F_op = darsia.FVFullFaceReconstruction(grid)
+        ub = np.array([rng.randint(-9, 9) for _ in range(nf)], dtype=float)
+        for arr_ in (ua, ub, ua):
+            ul = [int(x) for x in arr_]
+            tr = T_op(arr_, False)
+            ev.append(dict(base, op="tang", u=ul, res=[[qi(4 * x) for x in comp] for comp in tr]))
+            # the concatenated form must be the same numbers
+            cat = T_op(arr_, True)
+            if not np.array_equal(np.concatenate(tr), cat):
+                ev[-1]["res"] = [[BADINT] * nf] * (dim - 1)
+            full = F_op(arr_)
+            ev.append(dict(base, op="full", u=ul, res=[[qi(4 * x) for x in row] for row in full]))
         uc = [1] * nf
         trc = darsia.FVTangentialFaceReconstruction(grid)(np.array(uc, dtype=float), False)
         ev.append(dict(base, op="tang", u=uc, res=[[qi(4 * x) for x in comp] for comp in trc]))
+    if not np.array_equal(ua, np.array(u, dtype=float)):
+        # the caller's flux array was written to by one of the operators: every result computed from it is void
+        for e_ in ev:
+            if e_.get("u") == u and e_["op"] in ("f2c", "tang", "full"):
+                e_["res"] = [[BADINT]]
     return ev
 
 
